@@ -7,8 +7,9 @@ Three parts, all on the harness-owned virtual-time loop (vlib/vtime.py):
   deadlines, remove_timeout before / after firing and from inside other callbacks, callbacks that
   raise, return a failed future, a failing or succeeding coroutine, a non-awaitable, or schedule further
   callbacks / timeouts / add_future registrations from inside; add_future with asyncio and
-  concurrent futures already done or completed later; clock advances (timer by timer) and clock jumps
-  (several timers become due at once).  The execution log is compared with a model.
+  concurrent futures already done or completed later; clock advances (timer by timer), clock jumps
+  (several timers become due at once) and *busy callbacks* that move the clock forward while they run and
+  then arm timeouts whose deadlines are already over.  The execution log is compared with a model.
 * threads: real producer threads call add_callback with tagged payloads; a producer is a plain thread,
   or runs its *own* asyncio loop (asyncio.run) / its own Tornado IOLoop (run_sync) and calls
   target.add_callback from inside a coroutine there.  "busy" mode: k in 2..4 producers plus the loop
@@ -56,6 +57,11 @@ Sensitivity (quick tier, seed 1, one textual mutation at a time on a scratch cop
   * run_sync: both `if timeout is not None:` guards turned into `if timeout:` (timeout=0 ignored)  -> caught at
     seeds 1-3 (C38.run_sync.no_timeout_error; never-finishing functions: C38.run_sync.never_returns) since the
     boundary timeouts 0 / 0.0 / 1e-9 were added.  Earlier version: missed (smallest timeout was 0.25 s).
+  * call_at fast path: an already-past deadline is scheduled with `call_soon` instead of `call_later(0)` -> caught at
+    seeds 1-3 (C38.timeout_deadline_order) since "busy" callbacks were added: a callback arms timeout A, moves the
+    virtual clock forward inside the callback (loop thread busy) past A's deadline, then arms B whose later deadline is
+    also already over; B must not run while A is overdue and pending.  Earlier version: missed (the clock never moved
+    inside a callback, so a past-deadline timeout never coexisted with an overdue earlier one).
   * call_at without `max(0, ...)` (DESIGN)                                      -> NOT caught: equivalent; asyncio's call_later accepts a
     negative delay and fires it at once, only the (unspecified) order among already-past deadlines changes.
 """
@@ -76,7 +82,7 @@ READY = True
 RULE = (
     "main: Hypothesis op-lists (3..30 ops) over {add_callback, spawn_callback, 4 timeout forms x 10 deadline offsets "
     "(multiples of 0.25 s incl. past/now/far), remove_timeout, add_future (asyncio/concurrent, done/later), fire, "
-    "advance, jump, settle} x 12 callback behaviours; threads: busy mode k in 2..4 producers x m<=40 payloads + loop-thread "
+    "advance, jump, settle} x 13 callback behaviours (incl. busy callbacks moving the clock); threads: busy mode k in 2..4 producers x m<=40 payloads + loop-thread "
     "payloads, idle-target mode k in 1..4 x m<=25, each producer plain / inside asyncio.run / inside its own IOLoop; run_sync: 10 function kinds x durations x timeouts {None, 0.25..100 s, 0, 0.0, 1e-9}. non-trivial (main) = >=3 scheduled items with a "
     "removal or a raising callback among them; distinct = SHA-1 of the case"
 )
@@ -194,6 +200,20 @@ class World:
             self.labels.add("timeout_from_callback")
         elif k == "nest_af":
             self.add_af("aio", True)
+        elif k == "busy":
+            # a slow callback: arms a timeout, keeps the loop thread busy while the clock moves on (possibly past that
+            # deadline and others), then arms another timeout whose deadline - counted from when the callback began -
+            # may already be over.  All overdue timeouts must still run in deadline order.
+            _, form1, q1, qadv, form2, q2 = beh
+            t0 = self.loop.time()
+            self.add_to(form1, q1, ("plain",))
+            self.loop._now += qadv * Q
+            b = self.add_to(form2, q2, ("plain",), base=t0)
+            self.labels.add("busy_callback")
+            if b["deadline"] <= self.loop.time() and any(
+                    o is not b and o["runs"] == 0 and not o["removed"] and o["eff"] < b["eff"] and o["eff"] <= self.loop.time()
+                    for o in self.timeouts):
+                self.labels.add("past_deadline_while_earlier_overdue")
         elif k == "rm":
             if self.remove(beh[1]):
                 self.labels.add("remove_inside_callback")
@@ -205,9 +225,9 @@ class World:
         (self.io.spawn_callback if spawn else self.io.add_callback)(self.make_fn(item))
         return item
 
-    def add_to(self, form, q, beh):
+    def add_to(self, form, q, beh, base=None):
         now = self.loop.time()
-        d = q * Q
+        d = q * Q if base is None else (base + q * Q) - now  # deadline = base + q*Q, possibly already past
         item = self.new_item("to", beh, deadline=now + d, eff=max(now + d, now), form=form)
         self.timeouts.append(item)
         fn = self.make_fn(item)
@@ -735,6 +755,10 @@ BEH = st.one_of(
     st.tuples(st.just("nest_to"), st.sampled_from(["abs", "td", "later", "at"]), st.sampled_from([-4, 0, 1, 2, 4])),
     st.just(("nest_af",)),
     st.tuples(st.just("rm"), st.integers(0, 7)), st.tuples(st.just("rm"), st.integers(0, 7)),
+    st.tuples(st.just("busy"), st.sampled_from(["abs", "td", "later", "at"]), st.sampled_from([0, 1, 1, 2, 4]),
+              st.sampled_from([1, 2, 4, 8, 8]), st.sampled_from(["abs", "td", "later", "at"]), st.sampled_from([1, 2, 2, 4, 6])),
+    st.tuples(st.just("busy"), st.sampled_from(["abs", "td", "later", "at"]), st.sampled_from([0, 1, 1, 2, 4]),
+              st.sampled_from([1, 2, 4, 8, 8]), st.sampled_from(["abs", "td", "later", "at"]), st.sampled_from([1, 2, 2, 4, 6])),
 )
 QS = st.sampled_from([-8, -1, 0, 0, 1, 2, 2, 4, 4, 8, 4000])
 FORM = st.sampled_from(["abs", "td", "later", "at"])
